@@ -559,6 +559,7 @@ static void run_child(char* spec)
         else if (sscanf(g_faults[i], "camempty %d", &c) == 1) g_mock.cam_empty_every = c;
         else if (sscanf(g_faults[i], "camstartfail %d %d", &d, &c) == 2) g_mock.cam_start_fails[d] = c;
         else if (sscanf(g_faults[i], "openfail %d %d", &d, &c) == 2) g_mock.open_fails[d] = c;
+        else if (sscanf(g_faults[i], "descfail %d %d", &d, &c) == 2) g_mock.desc_fails[d] = c;
     }
     detsched_init(&cfg);
     printf("RUN %s", spec);
@@ -581,7 +582,7 @@ int main(void)
         else if (!strncmp(p, "hang ", 5)) g_hang_rounds = atoi(p + 5);
         else if (!strncmp(p, "cosim ", 6)) g_cosim = atoi(p + 6);
         else if (!strncmp(p, "fault ", 6)) { if (g_nfaults < 16) { snprintf(g_faults[g_nfaults], 64, "%s", p + 6); g_nfaults++; } }
-        else if (!strncmp(p, "camempty ", 9) || !strncmp(p, "camstartfail ", 13) || !strncmp(p, "openfail ", 9)) { if (g_nfaults < 16) { snprintf(g_faults[g_nfaults], 64, "%s", p); g_nfaults++; } }
+        else if (!strncmp(p, "camempty ", 9) || !strncmp(p, "camstartfail ", 13) || !strncmp(p, "openfail ", 9) || !strncmp(p, "descfail ", 9)) { if (g_nfaults < 16) { snprintf(g_faults[g_nfaults], 64, "%s", p); g_nfaults++; } }
         else if (!strncmp(p, "reset", 5)) { g_nprog = 0; g_nfaults = 0; g_cosim = 0; }
         else if (!strncmp(p, "prog ", 5)) {
             char* save = 0;
